@@ -26,7 +26,7 @@ F2_KEY = "pubsub:sample-outlives-subscriber-chunk-reused"
 # Every other reference mismatch is a VIOLATION.
 
 MODEL_FILES = ["coq/model/Base.v", "coq/model/Conn.v", "coq/model/Port.v", "coq/extract/C01.v", "ocaml/c01/driver.ml",
-               "harness/g3/c01/src/main.rs", "harness/g3/c01/src/gen.rs", "harness/g3/c01/Cargo.toml",
+               "harness/g3/c01/src/main.rs", "harness/g3/c01/src/gen.rs", "harness/g3/c01/src/grow.rs", "harness/g3/c01/Cargo.toml",
                "tools/checks/pubsub_common.py"]
 
 
@@ -202,6 +202,22 @@ def compute(ctx):
     jobs += jobs_for(exe, th, ctx.seed)
     r = run_pipelines(jobs, driver, timeout=3000 if th else 900)
     cleanup()
+    # model-free probe: payloads that grow while loaned (Flatbuffer payload, dynamic data segment)
+    grow = {"scenarios": 0, "ok": 0, "changed": [], "failed": []}
+    for variant in ("local", "ipc"):
+        rc, out = vlib.sh("%s grow %s 2>/dev/null" % (exe, variant), timeout=600)
+        lines = [l for l in out.split("\n") if l.startswith("PROBE grow")]
+        if rc != 0 or not lines:
+            grow["failed"].append("%s rc=%s %s" % (variant, rc, out[-300:]))
+        for l in lines:
+            grow["scenarios"] += 1
+            if l.endswith("result=ok"):
+                grow["ok"] += 1
+            else:
+                grow["changed"].append(l[:600])
+    cleanup()
+    r["grow_probe"] = grow
+    r["grow_cmd"] = exe + " grow local|ipc"
     r["jobs"] = [(l, " ".join(a)) for l, a in jobs]
     r["driver"] = driver
     r["wall_s"] = round(time.time() - t0, 1)
@@ -353,6 +369,18 @@ def run(ctx):
         if nviol < 5:
             if ctx.violation("implementation differs from what %s demands (%d mismatch lines, first): %s" % (pid, n, (f.get("line") or "")[:400]), body, key=key):
                 nviol += 1
+    # ---- growing payloads (C02 only): the bytes of a held / buffered sample never change
+    g = r.get("grow_probe", {})
+    ctx.cov["grow_probe"] = {"scenarios": g.get("scenarios", 0), "ok": g.get("ok", 0), "changed": len(g.get("changed", [])),
+                             "what": "Flatbuffer<[u8]> payloads on publishers with AllocationStrategy PowerOfTwo / BestFit, reserved memory 16/64/256, 2..4 loans "
+                                     "of 40..5000 bytes that grow while loaned (relocation, also into fresh segments), sent, received or left buffered; after every "
+                                     "step every held sample's serialized bytes are compared with what was written (model-free canary)"}
+    if pid == "C02":
+        if g.get("changed"):
+            ctx.violation("a held or buffered sample's bytes changed after a later loan grew / was written (growing Flatbuffer payload): " + g["changed"][0][:500],
+                          {"probe_lines": g["changed"][:10], "how_to_rerun": r.get("grow_cmd")})
+        for f in g.get("failed", [])[:2]:
+            ctx.violation("grow probe failed to run: " + f, {"how_to_rerun": r.get("grow_cmd")}, no_input=True)
     # ---- the tie itself; when it is broken and no reference mismatch of this property was seen, search around it
     if model_mm and not mine:
         ok, out, tdir = vlib.cargo_build("g3", bins=["c01"])
